@@ -83,14 +83,14 @@ Proof.
   pose proof (stray_collect2 s cx (lp_state2 cx ps0 path) (lp_opts2 cx ps0 top_opts path) (lp_st2 cs_empty path)
                 (0 + length (lp_text2 path)) l1 fws c g SEi OKi OKL W WF (stray_ok_path2 cx ps0 path c CH) SK1) as H.
   cbn zeta in H.
-  destruct (lpath_err2 s cx path ps0 top_opts cs_empty 0 _ _ _ _ SE0 (opts_ok_top ps0) OKP SK H)
+  destruct (lpath_err2 s cx (fuel_unit cx) (fuel_unit_ge8 cx) (fuel_unit_slots cx) path ps0 top_opts cs_empty 0 _ _ _ _ SE0 (opts_ok_top ps0) OKP SK H)
     as (e1 & H1 & P1 & W1).
   pose proof (erule_general s cx _ _ _ _ _ _ H1) as H2.
   assert (LS : length s = length (lp_text2 path) + (length (unparse_items2 l1) + (length fws + (length (stray_text c) + length g)))).
   { unfold s. rewrite !app_length. reflexivity. }
   exists (rewrap 0 e1). split; [|split].
   - unfold parse_top. fold s.
-    rewrite (run_mono s false cx _ (parse_fuel s) _ _ H2 ltac:(discriminate)) by (unfold parse_fuel; lia).
+    rewrite (run_mono s false cx _ (parse_fuel s cx) _ _ H2 ltac:(discriminate)) by (unfold parse_fuel, fuel_base; rewrite LS, (Nat.mul_comm _ (fuel_unit cx)); lia).
     cbn [parse_content]. f_equal; unfold q; lia.
   - cbn [rewrap mkerr pe_pos]. rewrite P1. cbn [fail_err mkerr pe_pos]. f_equal; unfold q; lia.
   - cbn [rewrap mkerr pe_what]. rewrite W1. reflexivity.
@@ -127,20 +127,20 @@ Proof.
   assert (DS : delim_ok oc cc = true /\ StdE cx aps).
   { unfold ok_brkhole in OKH. apply andb_true_iff in OKH. destruct OKH as [_ OKM].
     unfold aps, bh_state. destruct (mac_hole2 cx name (length args1)) as [[[sp l] spc]|]; [|discriminate].
-    apply andb_true_iff in OKM. destruct OKM as [OKM _]. apply andb_true_iff in OKM. destruct OKM as [OKM _].
+    apply andb_true_iff in OKM. destruct OKM as [OKM _].
     apply andb_true_iff in OKM. destruct OKM as [_ KD].
     destruct (a_kind spc) as [|o' c' opt sp'| |]; try discriminate.
     destruct o' as [|oc' [|? ?]]; try discriminate. destruct c' as [|cc' [|? ?]]; try discriminate.
     apply andb_true_iff in KD. destruct KD as [KD _]. apply andb_true_iff in KD. destruct KD as [KD _].
     apply andb_true_iff in KD. destruct KD as [_ D]. split; [exact D | apply stde_adelta; exact SEi]. }
   destruct DS as [D SEa].
-  pose proof (stray_collect2_brk s cx aps oc cc cs_empty (0 + length (lp_text2 path) + length bt) l1 fws c g
+  pose proof (stray_collect2_brk s cx (fuel_unit cx) (fuel_unit_ge8 cx) (fuel_unit_slots cx) aps oc cc cs_empty (0 + length (lp_text2 path) + length bt) l1 fws c g
                 SEa D OKL W WF SK2) as H.
   cbn zeta in H.
-  destruct (brk_hole_err s cx hs (lp_opts2 cx ps0 top_opts path) (lp_st2 cs_empty path)
+  destruct (brk_hole_err s cx (fuel_unit cx) (fuel_unit_ge8 cx) (fuel_unit_slots cx) hs (lp_opts2 cx ps0 top_opts path) (lp_st2 cs_empty path)
               (0 + length (lp_text2 path)) before ws name post args1 aws oc cc F _ _ _ SEi OKi OKH SK1 H)
     as (e0 & H0 & P0 & W0).
-  destruct (lpath_err2 s cx path ps0 top_opts cs_empty 0 _ _ _ _ SE0 (opts_ok_top ps0) OKP SK H0)
+  destruct (lpath_err2 s cx (fuel_unit cx) (fuel_unit_ge8 cx) (fuel_unit_slots cx) path ps0 top_opts cs_empty 0 _ _ _ _ SE0 (opts_ok_top ps0) OKP SK H0)
     as (e1 & H1 & P1 & W1).
   pose proof (erule_general s cx _ _ _ _ _ _ H1) as H2.
   assert (LS : length s = length (lp_text2 path) + (length bt + (length (unparse_items2 l1)
@@ -148,7 +148,7 @@ Proof.
   { unfold s, F. rewrite !app_length. reflexivity. }
   exists (rewrap 0 e1). split; [|split].
   - unfold parse_top. fold s.
-    rewrite (run_mono s false cx _ (parse_fuel s) _ _ H2 ltac:(discriminate)) by (unfold parse_fuel; unfold bt in *; lia).
+    rewrite (run_mono s false cx _ (parse_fuel s cx) _ _ H2 ltac:(discriminate)) by (unfold parse_fuel, fuel_base; rewrite LS, (Nat.mul_comm _ (fuel_unit cx)); unfold bt in *; lia).
     cbn [parse_content]. f_equal; unfold q, bt; lia.
   - cbn [rewrap mkerr pe_pos]. rewrite P1, P0. cbn [fail_err mkerr pe_pos]. f_equal; unfold q, bt; lia.
   - cbn [rewrap mkerr pe_what]. rewrite W1, W0. reflexivity.
